@@ -123,7 +123,8 @@ def p_C11(res, facts, tier):
     dds.check_waves(res, facts, 'C11')
     dds.check_pa_methods(res, facts, dds.LFO, 'C11')
     dds.check_lfo_wrappers(res, facts)
-    dds.check_bits(res, facts, [dds.LFO], which=('ramp',))
+    # (the phase is observed through get(UpSaw) above, with a tolerance; ramp() itself only has to convert without rounding)
+    dds.check_bits(res, facts, [dds.LFO], which=('ramp_cast',))
 
 
 def p_C12(res, facts, tier):
